@@ -9,7 +9,7 @@ from . import c01
 
 THEOREMS = '''cm_energy_offset ff_energy_offset cm_basis_change basisMix_spec ff_basis_independent
 ff_basis_independent_real cm_frame_covariance ff_frame_independent'''.split()
-PINS = ['pinIdentityElementIndex']
+PINS = ['pinIdentityElementIndex', 'pinGgmExpand']
 GEN_SITES = c01.GEN_SITES
 COMPONENTS = c01.COMPONENTS
 RULES = ['correspondence: as C01; search: pairs of complete orthonormal Hermitian bases (GGM, Pauli, '
@@ -41,6 +41,8 @@ def basis_of(rng, d, kind):
         arr = gens.rotated_basis(rng, d, True)
         arr = arr[rng.permutation(len(arr))]
         return ('custom', arr, True, 'Custom')
+    if kind == 'signed_tl':
+        return ('custom', gens.signed_shuffled_basis(rng, d, True), True, 'Custom')
     if kind == 'derived':
         how = str(rng.choice(['permute', 'conj', 'transpose', 'ctor', 'scale_normalize']))
         return ('derived', ('ggm',), how, int(rng.integers(0, 2**31)))
@@ -126,11 +128,47 @@ def check_offset_frame(ctx, case):
     ctx.count(('of', scale, case['const'], tuple(desc['features']), case['seed']), nontrivial=True)
 
 
+def check_ggm_large(ctx, case):
+    """d = 13 (closed-form GGM expansion in the Liouville representation): filter function and
+    infidelity of a concatenation in the GGM basis vs the same computed in a rotated basis and from
+    scratch"""
+    rng = np.random.default_rng(case['seed'])
+    d = 13
+    om = np.array([0.3, 1.1, 2.7])
+    d1 = gens.rand_desc(rng, d=d, n_dt=2, n_c=1, n_n=1, basis=('ggm',), features=['const_sens'])
+    d2 = gens.rand_desc(rng, d=d, n_dt=2, n_c=1, n_n=1, basis=('ggm',), features=['const_sens'])
+    d2['c_opers'], d2['c_ids'] = d1['c_opers'], d1['c_ids']
+    d2['n_opers'], d2['n_ids'], d2['n_coeffs'] = d1['n_opers'], d1['n_ids'], np.repeat(
+        np.asarray(d1['n_coeffs'])[:, :1], 2, axis=1)
+    rot = ('custom', gens.rotated_basis(rng, d, True), True, 'Custom')
+    res = {}
+    for name, b in (('ggm', ('ggm',)), ('rotated', rot)):
+        a, c = dict(d1, basis=b), dict(d2, basis=b)
+        cat = ff.concatenate([gens.build(a), gens.build(c)], omega=om)
+        res[name] = (cat.get_filter_function(om), ff.infidelity(cat, 1/(1 + om), om))
+    seq = dict(d1)
+    seq['c_coeffs'] = np.concatenate((d1['c_coeffs'], d2['c_coeffs']), axis=1)
+    seq['n_coeffs'] = np.concatenate((d1['n_coeffs'], d2['n_coeffs']), axis=1)
+    seq['dt'] = np.concatenate((d1['dt'], d2['dt']))
+    Fs = gens.build(seq).get_filter_function(om)
+    ctx.count(('ggm13', case['seed']))
+    e1 = gens.rel_err(res['ggm'][0], res['rotated'][0])
+    e2 = gens.rel_err(res['ggm'][0], Fs)
+    e3 = gens.rel_err(res['ggm'][1], res['rotated'][1])
+    if not max(e1, e2, e3) <= 1e-8:
+        ctx.fail('basis_independence', dict(case, desc=d1, kinds=['ggm13', 'rotated']),
+                 {'what': 'd = 13 concatenation', 'err': max(e1, e2, e3)}, {'tol': 1e-8}, {},
+                 f'basis_independence: d = 13, GGM vs rotated basis vs from scratch: filter function '
+                 f'{e1:.3g} / {e2:.3g}, infidelity {e3:.3g}')
+
+
 CHECKS = {'basis_independence': check_basis, 'energy_offset': check_offset_frame,
           'frame_covariance': check_offset_frame}
 
 
 def replay(ctx, check, case):
+    if case.get('kinds') and case['kinds'][0] == 'ggm13':
+        return check_ggm_large(ctx, case)
     CHECKS[check](ctx, case)
 
 
@@ -138,7 +176,9 @@ def search(ctx, deep=False):
     rng = ctx.rng('deep' if deep else 'search')
     n = {('quick', False): 16, ('quick', True): 120, ('thorough', False): 300,
          ('thorough', True): 900}[(ctx.tier, deep)]
-    kinds_all = ['ggm', 'pauli', 'rot_tl', 'rot_ntl', 'partial', 'shuffled_tl', 'derived']
+    kinds_all = ['ggm', 'pauli', 'rot_tl', 'rot_ntl', 'partial', 'shuffled_tl', 'derived', 'signed_tl']
+    if ctx.tier == 'thorough' or deep:
+        check_ggm_large(ctx, {'seed': int(rng.integers(0, 2**31))})
     for i in range(n):
         feats = gens.rand_features(rng, 0.25, ['idle', 'zero_dt', 'degenerate', 'nontraceless_nop',
                                                'neg_sens', 'structured'])
